@@ -1,6 +1,6 @@
 (* C14 - exported text is complete, ordered, deterministic and equals the written file.
    Only the property theorems, closed by `exact`, with their assumptions. (Extended below.) *)
-From Coq Require Import List NArith Bool Ascii String.
+From Coq Require Import List NArith Bool Ascii String Lia.
 From QI Require Import Base.ListAux Spec.QasmLex Model.Qasm.
 Import ListNotations.
 Open Scope N_scope.
@@ -16,3 +16,26 @@ Theorem C14_lowering_chunk_independent :
   forall (A B : Type) (f : A -> list B) (k : nat) (l : list A), (0 < k)%nat -> flat_map (fun chunk => flat_map f chunk) (chunks k l) = flat_map f l.
 Proof. exact @chunks_flat_map. Qed.
 Print Assumptions C14_layout. Print Assumptions C14_lowering_chunk_independent.
+
+(* ---- what a front end reads back from the emitted tokens ---- *)
+From QI Require Import Model.QasmLower Spec.QasmGrammar Proofs.C18b.
+Open Scope string_scope.
+Open Scope list_scope.
+
+(* For EVERY instruction list: the recogniser parses the emitted token sequence into exactly
+     the two routine definitions; the qubit register of the circuit width;
+     one bit register per measurement group, numbered 0,1,2,.. in program order and sized to the group (hoisted);
+     then exactly one gate statement per lowered gate in circuit order, and for measurement group k exactly one
+     assignment mK[j] = .. per listed qubit, j = 0,1,.. in listed order (a custom-basis group: U, measure, U per qubit).
+   Nothing is dropped, duplicated or reordered. *)
+Theorem C14_program_structure : forall n is, Forall instr_wf is ->
+  p_program (program_toks n is) = Some (header_stmts ++ [SQubitDecl n] ++ decl_stmts is ++ body_stmts 0 is).
+Proof. exact program_parses. Qed.
+Print Assumptions C14_program_structure.
+
+(* the number of body statements: one per gate instruction, one per measured qubit (three for a custom basis) *)
+Theorem C14_statement_count : forall is k,
+  List.length (body_stmts k is) =
+  fold_right (fun i acc => (match i with IGate _ _ _ _ => 1 | IMeas _ qs => List.length qs | IMeasCustom _ _ qs => 3 * List.length qs end + acc)%nat) 0%nat is.
+Proof. exact body_stmts_count. Qed.
+Print Assumptions C14_statement_count.
